@@ -291,6 +291,22 @@ class Obligation(object):
         self.note = note
 
 
+_QUANT_CACHE = {}
+
+
+def has_quantifier(c):
+    k = c.get_id()
+    hit = _QUANT_CACHE.get(k)
+    if hit is not None and hit[1].eq(c):
+        return hit[0]
+    sx = c.sexpr()
+    r = '(forall ' in sx or '(exists ' in sx
+    if len(_QUANT_CACHE) > 20000:
+        _QUANT_CACHE.clear()
+    _QUANT_CACHE[k] = (r, c)        # the term is kept: ids are unique among live terms only
+    return r
+
+
 class Ctx(object):
     FEAS_TIMEOUT_MS = 1000
     FEAS_TIMEOUT_QUANT_MS = 120
@@ -301,6 +317,7 @@ class Ctx(object):
         self.pc = []
         self.solver = z3.Solver()
         self.solver.set('timeout', self.FEAS_TIMEOUT_MS)
+        self.unknown_streak = 0
         self.obligations = []
         self.flags = set()
         self.counter = 0
@@ -347,15 +364,14 @@ class Ctx(object):
             raise Infeasible()
         self.pc.append(cond)
         self.solver.add(cond)
-        if not self.has_quant:
-            sx = cond.sexpr()
-            if '(forall ' in sx or '(exists ' in sx:
+        if has_quantifier(cond):
+            if not self.has_quant:
                 # satisfiable quantified path conditions make z3 search for a model until the timeout; refutations are
                 # fast: keep pruning but with a short budget (unknown = feasible, which is sound)
                 self.has_quant = True
                 self.solver.set('timeout', self.FEAS_TIMEOUT_QUANT_MS)
         if check:
-            r = self.solver.check()
+            r = self.feasible()
             if r == z3.unsat:
                 if self.phase == 'post':
                     self.post_prunes += 1
@@ -370,7 +386,27 @@ class Ctx(object):
         self._axiom_keys.add(k)
         self.axioms.append(cond)
         self.solver.add(cond)
-        if not self.has_quant and ('(forall ' in k or '(exists ' in k):
+        if '(forall ' in k or '(exists ' in k:
+            if not self.has_quant:
+                self.has_quant = True
+                self.solver.set('timeout', self.FEAS_TIMEOUT_QUANT_MS)
+
+    def feasible(self):
+        """ z3.unsat when the path condition is refuted; anything else counts as feasible (sound: more paths, never fewer).
+            (A quantifier-free relaxation solver was tried as a first stage: sat answers over sequences are as slow as the
+            quantified unknowns, no gain - measured on MAXIFS.) """
+        return self.solver.check()
+
+    def inherit(self, parent):
+        """ a sub-exploration starts from the parent's path condition and library axioms """
+        for c in parent.pc:
+            self.solver.add(c)
+        for c in parent.axioms:
+            self.solver.add(c)
+        self._axiom_keys = set(parent._axiom_keys)
+        self.flags = parent.flags
+        self.unknown_streak = parent.unknown_streak
+        if parent.has_quant:
             self.has_quant = True
             self.solver.set('timeout', self.FEAS_TIMEOUT_QUANT_MS)
 
